@@ -35,6 +35,7 @@ def main():
     props = [prop]
     tier = "quick"
     skip_confirm = False
+    snapshot = False
     i = 4
     while i < len(a):
         if a[i] == "--props":
@@ -45,6 +46,11 @@ def main():
             i += 2
         elif a[i] == "--skip-confirm":
             skip_confirm = True
+            i += 1
+        elif a[i] == "--snapshot":
+            # evaluate on a patched COPY of /repo's HEAD (git archive) with its own build dir, so /repo and the
+            # committed evidence stay untouched (used while /repo must stay clean)
+            snapshot = True
             i += 1
         else:
             i += 1
@@ -84,6 +90,26 @@ def main():
             print("NOT CONFIRMED - not kept")
             print(json.dumps(meta, indent=1)[-3000:])
             return 3
+    if snapshot:
+        snap = os.path.join(VERIF, ".build", "repo_seed")
+        results = {}
+        sh("rm -rf %s && mkdir -p %s && git -C /repo archive HEAD | tar -x -C %s && cp /repo/Cargo.lock %s/" % (snap, snap, snap, snap), VERIF)
+        rc, out = sh("patch -p1 < %s" % patch, snap)
+        if rc != 0:
+            print("patch does not apply to the snapshot:", out)
+            return 2
+        env = {"VERIF_REPO": snap, "VERIF_BUILD": os.path.join(VERIF, ".build", "bg2")}
+        for p in props:
+            t0 = time.time()
+            rc, out = sh("./check %s --tier %s" % (p, tier), VERIF, timeout=7200, env=env)
+            lines = [l for l in out.splitlines() if l.startswith("VIOLATION") or "counterexample in" in l or l.startswith("[" + p + "]")
+                     or "UNDECIDED" in l or "INCONCLUSIVE" in l]
+            results[p] = {"exit": rc, "wall_s": round(time.time() - t0), "lines": lines[-12:], "on": "patched snapshot of /repo HEAD"}
+            print(p, "exit", rc)
+            for l in lines[-8:]:
+                print("   ", l)
+        sh("rm -rf %s" % snap, VERIF)
+        return finish(meta, results, seed, patch, demos, wt)
     # run the checks against it
     rc, out = sh("git status --porcelain", "/repo")
     if out.strip():
@@ -106,6 +132,10 @@ def main():
                 print("   ", l)
     finally:
         sh("git checkout -- .", "/repo")
+    return finish(meta, results, seed, patch, demos, wt)
+
+
+def finish(meta, results, seed, patch, demos, wt):
     meta["checks"] = results
     meta["caught_by"] = [p for p, r in results.items() if r["exit"] == 1]
     d = os.path.join(VERIF, "seeded", seed)
